@@ -67,7 +67,12 @@ def glob_for(module, extra=None):
 def split_body(fd):
     """(prefix statements, the main while, statements after it) of a scheduler function"""
     body = [n for n in fd.body if not (isinstance(n, ast.Expr) and isinstance(n.value, ast.Constant))]
-    iw = [i for i, n in enumerate(body) if isinstance(n, ast.While)][0]
+    loops = [i for i, n in enumerate(body) if isinstance(n, ast.While)]
+    if not loops:
+        # the harness drives ONE iteration of the scheduler's main loop from an arbitrary state; a scheduler whose loop lives elsewhere
+        # cannot be driven that way -- reported as inconclusive (not an alarm)
+        raise Unsupported("no top-level `while` loop in %s: the one-iteration harness does not apply to this code shape" % fd.name)
+    iw = loops[0]
     return body[:iw], body[iw], body[iw + 1:]
 
 
@@ -115,9 +120,16 @@ def ltf_step(W, cfg, bound=None, use_lpsd=False):
     env = I.block(pre, env)
     rhu_summary(I, env, W)
     add_pow_facts(W, cfg)
+    # the loop variable is whatever the `while <var> < ...` test reads (no reliance on local names)
+    lv = [n.id for n in ast.walk(wh.test) if isinstance(n, ast.Name) and n.id in env and isinstance(env[n.id], SR)]
+    if not lv:
+        raise Unsupported("cannot identify the loop variable of the scheduler's main loop")
+    loopvar = lv[0]
+    f_init = env[loopvar]
     fi = W.real("fi")
-    W.assume(fi >= env["fmin"])
-    env["fi"] = fi
+    W.assume(fi >= f_init)
+    env["__loopvar__"], env["__f_init__"] = loopvar, f_init
+    env[loopvar] = fi
     guard = I.ev(wh.test, env)
     W.assume(guard)
     env1 = I.block(wh.body, env)
@@ -398,13 +410,31 @@ def ob_ltf(W, sched, part, bound=12):
     cfg = config(W)
     if not W.sym:
         return concrete_goals(W, sched, cfg, _GOALS[part])
+    try:
+        return _ob_ltf_sym(W, sched, part, bound, cfg)
+    except (KeyError, IndexError, NameError, AttributeError) as e:
+        # the obligation reads the scheduler through its loop variable and its returned plan; anything else it touches
+        # (local names used for lemma hints, the shape of the start loop) is optional -- a different code shape is inconclusive
+        raise Unsupported("scheduler code shape not recognised by this obligation (%s: %s)" % (type(e).__name__, e))
+
+
+def _ob_ltf_sym(W, sched, part, bound, cfg):
     I, env0, env1, post, args = ltf_step(W, cfg, use_lpsd=(sched == "lpsd"))
     N, fs, olap = cfg["N"], cfg["fs"], cfg["olap"]
     bmin, Lmin = args["bmin"], args["Lmin"]
-    L, K, fres, fbin, fnext, fi = env1["dftlen"], env1["nseg"], env1["fres"], env1["fbin"], env1["fi"], env0["fi"]
+    loopvar = env0["__loopvar__"]
+    fi, fnext = env0[loopvar], env1[loopvar]
+    if part in ("step", "regime"):
+        import copy as _cp
+        Ipost = I
+        out = run_post(W, Ipost, dict(env1), post, 3)
+        del I.unwind[:]
+        L, K, fres, fbin = SR(tz(out["L"][0])), SR(tz(out["K"][0])), out["r"][0], out["b"][0]
+    else:
+        L, K, fres, fbin = env1["dftlen"], env1["nseg"], env1["fres"], env1["fbin"]
     if part == "step":
-        step_goals(W, cfg, dict(L=L, K=K, r=fres, b=fbin, fnext=fnext, fi=fi, fmin=env0["fmin"], bmin=bmin, Lmin=Lmin,
-                                stored=(env1["f_arr"][-1], env1["fres_arr"][-1], env1["b_arr"][-1], env1["L_arr"][-1], env1["K_arr"][-1])))
+        step_goals(W, cfg, dict(L=L, K=K, r=fres, b=fbin, fnext=fnext, fi=fi, fmin=env0["__f_init__"], bmin=bmin, Lmin=Lmin,
+                                stored=(out["f"][0], out["r"][0], out["b"][0], SR(tz(out["L"][0])), SR(tz(out["K"][0])))))
         if sched == "lpsd":
             same = all((args[k] is cfg[k]) for k in ("N", "fs", "olap", "Jdes", "Kdes"))
             W.goal("C03/lpsd=ltf(bmin=1,Lmin=1)", same and (not isinstance(args["bmin"], SR)) and args["bmin"] == 1.0 and (not isinstance(args["Lmin"], SR)) and args["Lmin"] == 1 and set(args) == set(cfg))
@@ -544,11 +574,14 @@ def ob_ltf_overlap(W, Kn):
     I = astx.Interp(glob_for(Sm))
     L = W.int("L", lo=1)
     d = [W.int("d%d" % i) for i in range(Kn)]
-    i0 = [i for i, n in enumerate(post) if isinstance(n, ast.Assign) and ast.unparse(n.targets[0]) == "O_arr"][0]
-    forj = [n for n in post[i0:] if isinstance(n, ast.For)][0]
-    env = {"D_arr": [astx.GList(d)], "L_arr": [L], "nf": 1}
-    env = I.block(post[i0:post.index(forj) + 1], env)
-    O = env["O_arr"][0]
+    try:
+        i0 = [i for i, n in enumerate(post) if isinstance(n, ast.Assign) and ast.unparse(n.targets[0]) == "O_arr"][0]
+        forj = [n for n in post[i0:] if isinstance(n, ast.For)][0]
+        env = {"D_arr": [astx.GList(d)], "L_arr": [L], "nf": 1}
+        env = I.block(post[i0:post.index(forj) + 1], env)
+        O = env["O_arr"][0]
+    except (IndexError, KeyError, NameError) as e:
+        raise Unsupported("the overlap computation is not in the shape this obligation drives (%s: %s)" % (type(e).__name__, e))
     if Kn > 1:
         mean_step = sum((d[i + 1] - d[i]) for i in range(Kn - 1)) / (Kn - 1)
         W.goal("C04/O=realised-overlap", W.eq(O, (L - mean_step) / L))
